@@ -59,7 +59,7 @@ class Span:
         if self.file != x.file:
             return False
         if isinstance(x, Span):
-            return self.start <= x.start <= self.end <= x.end
+            return self.start <= x.start and x.end <= self.end
         return self.start <= x <= self.end
 
     def __and__(self, other: "Span") -> "Span | None":
